@@ -285,15 +285,24 @@ structure Round where
   err : Option PyExc
   deriving Repr
 
-/-- one notification round over the snapshot `ls` (`self.listeners.copy()`), in the snapshot's order; `react l` is
-what listener `l`'s callback does to the live set.  An exception out of a callback ends the round. -/
-def notifyRound (ls : List Nat) (react : Nat → List ListenerAct) : Round :=
-  ls.foldl (fun st l =>
+/-- one notification round.  `copied`: is `self.listeners` copied before the loop (generated leaves
+`updates_iterates_copy` / `complete_iterates_copy`)?  With the copy, the loop runs over the snapshot `ls` in its order,
+whatever the callbacks do to the live set; `react l` is what listener `l`'s callback does to the live set; an exception
+out of a callback ends the round.  Without the copy CPython raises `RuntimeError: Set changed size during iteration`
+at the next step of the loop (also at the step that would end it) once a callback has changed the size of the set. -/
+def notifyRoundWith (copied : Bool) (ls : List Nat) (react : Nat → List ListenerAct) : Round :=
+  let r := ls.foldl (fun st l =>
     match st.err with
     | some _ => st
     | none =>
-      let r := runActs st.live (react l)
-      { called := st.called ++ [l], live := r.1, err := r.2 }) { called := [], live := ls, err := none }
+      if !copied && st.live.length != ls.length then { st with err := some .other }
+      else
+        let r := runActs st.live (react l)
+        { called := st.called ++ [l], live := r.1, err := r.2 }) { called := [], live := ls, err := none }
+  if !copied && r.err.isNone && r.live.length != ls.length then { r with err := some .other } else r
+
+/-- the round as the code runs it today: over `self.listeners.copy()` -/
+def notifyRound (ls : List Nat) (react : Nat → List ListenerAct) : Round := notifyRoundWith true ls react
 
 /-- what one datagram does when listeners are registered -/
 structure Delivery where
@@ -319,11 +328,11 @@ def deliver (lower : String → String) (order : List Nat → List Nat) (c : Cac
   match out.call1 with
   | none => pure { cache := out.cache, listeners := ls, round1 := [], round2 := [], err := none, out := out }
   | some call =>
-    let r1 := notifyRound (order ls) react1
+    let r1 := notifyRoundWith Gen.Cache.updates_iterates_copy (order ls) react1
     match r1.err with
     | some e => pure { cache := call.2, listeners := r1.live, round1 := r1.called, round2 := [], err := some e, out := out }
     | none =>
-      let r2 := notifyRound (order r1.live) react2
+      let r2 := notifyRoundWith Gen.Cache.complete_iterates_copy (order r1.live) react2
       pure { cache := out.cache, listeners := r2.live, round1 := r1.called, round2 := r2.called, err := r2.err, out := out }
 
 end Zc
